@@ -26,6 +26,11 @@ def union_copy_shortcut_wrong_member(v):
     # order, whose packer does not raise; a non-basic member declared before the value's own member got the value
     if bool(f.get("earlier_nonscalar_member_before_value_member")) and v.get("sig", "").startswith("encode:"):
         return True
+    # the same seen through a format codec (C04): the document is the rendering of the earlier member (e.g. a dataclass
+    # member all of whose fields are constants accepts any object when called through a codec), or the routes differ
+    if bool(f.get("earlier_nonscalar_member_before_value_member")) and (
+            "document-differs-from-reference" in v.get("sig", "") or ":routes-disagree:" in v.get("sig", "")):
+        return True
     # the same seen from a round trip (C01): the DOCUMENT already differs from the reference encoding of the value
     return bool(f.get("earlier_nonscalar_member_before_value_member")) and f.get("document_differs_from_reference_encoding") is True
 
